@@ -64,6 +64,7 @@ type aliasSet struct {
 	// reference → current
 	typeFwd map[string]string
 	funcFwd map[string]string
+	refFns  map[string]bool // pkg|recv|name of every function of the reference tree
 	Log     []string
 }
 
@@ -324,8 +325,10 @@ func buildAliases(w *World) *aliasSet {
 		curFuncs[f.Pkg+"|"+refRecvOf(f.Pkg, f.Recv)+"|"+f.Name] = f
 	}
 	refFuncs := map[string]fpFunc{}
+	as.refFns = map[string]bool{}
 	for _, f := range ref.Funcs {
 		refFuncs[f.Pkg+"|"+f.Recv+"|"+f.Name] = f
+		as.refFns[f.Pkg+"|"+f.Recv+"|"+f.Name] = true
 	}
 	missF := map[string][]fpFunc{}
 	newF := map[string][]fpFunc{}
@@ -494,4 +497,28 @@ func refFieldName(named *types.Named, field string) string {
 		return r
 	}
 	return field
+}
+
+// inReference: did this function (under its reference name) exist in the tree the rules were confirmed on?
+// Helpers introduced later are "new": findings inside them are attributed to the nearest caller that is not.
+func inReference(fn *ssa.Function) bool {
+	as := curAliases
+	if as == nil || len(as.refFns) == 0 || fn == nil || fn.Pkg == nil {
+		return true
+	}
+	f, ok := fn.Object().(*types.Func)
+	if !ok {
+		return true
+	}
+	recv := ""
+	if sig, _ := f.Type().(*types.Signature); sig != nil && sig.Recv() != nil {
+		t := sig.Recv().Type()
+		if pt, ok := t.(*types.Pointer); ok {
+			t = pt.Elem()
+		}
+		if nt, ok := t.(*types.Named); ok {
+			recv = as.refTypeName(f.Pkg().Path(), nt.Obj().Name())
+		}
+	}
+	return as.refFns[relPkg(f.Pkg().Path())+"|"+recv+"|"+refName(fn)]
 }
